@@ -1,6 +1,7 @@
 package parser
 
 import (
+	"go/token"
 	"go/types"
 	"unicode"
 
@@ -81,5 +82,6 @@ func isValidIdentifier(id string) bool {
 			return false
 		}
 	}
-	return id != ""
+	// A Go keyword (func, type, range, ...) cannot name a receiver either.
+	return id != "" && !token.IsKeyword(id)
 }
